@@ -801,6 +801,10 @@ class Class(Node):
             "statements",
             "initial_statements",
             "comment",
+            "annotation",
+            "encapsulated",
+            "partial",
+            "final",
         ):
             if not getattr(self, attr) and getattr(other, attr):
                 setattr(self, attr, getattr(other, attr))
